@@ -140,6 +140,19 @@ def handle (j : Json) : Except String Json := do
       | _ => handshake sup pref Verif.Gen.Versions.supported Verif.Gen.Versions.handlerDefault
     return Json.mkObj (outcomeJson o ++ [("trace", traceJson t),
       ("session", match s with | some v => Json.str v | none => Json.null)])
+  | "handshakes" =>
+    -- several clients against one server: one independent handshake each (the server keeps no state between them that
+    -- an answer depends on); per client its own free choice
+    let arr ← j.getObjValAs? (Array Json) "clients"
+    let rs ← arr.toList.mapM (fun cj => do
+      let sup ← getSup cj
+      let pref ← getPref cj
+      let (o, t, s) := match optField cj "choice" with
+        | some (.str c) => handshakeG sup pref Verif.Gen.Versions.supported c
+        | _ => handshake sup pref Verif.Gen.Versions.supported Verif.Gen.Versions.handlerDefault
+      pure (Json.mkObj (outcomeJson o ++ [("trace", traceJson t),
+        ("session", match s with | some v => Json.str v | none => Json.null)])))
+    return Json.mkObj [("clients", Json.arr rs.toArray)]
   | "batching" =>
     return Json.mkObj [("batching", Json.bool (batchingOf parseDate (← j.getObjValAs? String "v")))]
   | _ => throw s!"unknown op {op}"
